@@ -577,7 +577,13 @@ fn derive_func_op_shape(def: &FuncOpDef, symbol_table: &mut BTreeMap<Rc<str>, Sh
                 Shape::Func(fdef) => {
                     let narrowed = acc_shape.narrow(&fdef.ret, symbol_table);
                     match narrowed {
-                        Shape::TypeErr(_, _) => acc_shape,
+                        // The accumulator only seeds the reduction; when the
+                        // function returns something else the result is
+                        // whatever the last call returned.
+                        Shape::TypeErr(_, _) => Shape::Narrowed(NarrowedShape {
+                            pos: pos.clone(),
+                            types: NarrowingShape::Any,
+                        }),
                         other => other,
                     }
                 }
